@@ -624,7 +624,9 @@ func (e *env) freeScenarioOn(pre rhp4.ContractRevision, preRoots []types.Hash256
 		sc.honest = make([]rhpc.Msg, len(sc.steps))
 		sc.honest[1] = rhpc.Msg{Obj: r}
 	}
-	resp := func(out []rhpc.Msg) *proto4.RPCFreeSectorsResponse { return out[1].Obj.(*proto4.RPCFreeSectorsResponse) }
+	resp := func(out []rhpc.Msg) *proto4.RPCFreeSectorsResponse {
+		return out[1].Obj.(*proto4.RPCFreeSectorsResponse)
+	}
 	sc.muts = append(sc.muts, proofMuts(1, "OldSubtreeHashes", func(out []rhpc.Msg) *[]types.Hash256 { return &resp(out).OldSubtreeHashes }, nil)...)
 	sc.muts = append(sc.muts, proofMuts(1, "OldLeafHashes", func(out []rhpc.Msg) *[]types.Hash256 { return &resp(out).OldLeafHashes }, nil)...)
 	sc.muts = append(sc.muts, hashMuts(1, "NewMerkleRoot", func(out []rhpc.Msg) *types.Hash256 { return &resp(out).NewMerkleRoot },
@@ -699,7 +701,9 @@ func (e *env) rootsScenario(off, n uint64) *scenario {
 	if o.err != nil || o.panicked != nil {
 		return nil // the live case above already records the disagreement with the model
 	}
-	resp := func(out []rhpc.Msg) *proto4.RPCSectorRootsResponse { return out[1].Obj.(*proto4.RPCSectorRootsResponse) }
+	resp := func(out []rhpc.Msg) *proto4.RPCSectorRootsResponse {
+		return out[1].Obj.(*proto4.RPCSectorRootsResponse)
+	}
 	sc.muts = append(sc.muts, proofMuts(1, "Proof", func(out []rhpc.Msg) *[]types.Hash256 { return &resp(out).Proof }, nil)...)
 	rootAlts := map[string][]types.Hash256{}
 	if off+n < uint64(len(preRoots)) {
@@ -779,7 +783,9 @@ func (e *env) fundScenario(deposits []proto4.AccountDeposit) *scenario {
 	if o.err != nil || o.panicked != nil {
 		return nil // the live case above already records the disagreement with the model
 	}
-	resp := func(out []rhpc.Msg) *proto4.RPCFundAccountsResponse { return out[1].Obj.(*proto4.RPCFundAccountsResponse) }
+	resp := func(out []rhpc.Msg) *proto4.RPCFundAccountsResponse {
+		return out[1].Obj.(*proto4.RPCFundAccountsResponse)
+	}
 	sc.muts = append(sc.muts,
 		mutation{1, "Balances", "truncate", func(out []rhpc.Msg) { b := resp(out).Balances; resp(out).Balances = b[:len(b)-1] }},
 		mutation{1, "Balances", "extend", func(out []rhpc.Msg) { resp(out).Balances = append(resp(out).Balances, types.Siacoins(1)) }},
